@@ -8,6 +8,7 @@ import (
 	"net/http"
 	"net/url"
 
+	"github.com/gorilla/mux"
 	"github.com/openebs/jiva/util"
 	"github.com/rancher/go-rancher/api"
 	"github.com/rancher/go-rancher/client"
@@ -63,6 +64,10 @@ func zzRead(a *api.ApiContext, obj interface{}) error {
 	case *SnapshotInput:
 		in.Name, in.UserCreated, in.Created = zzPick("in.snap", "", "new", "a"), zzNondetBool("in.user"), zzPick("in.created", "", "t")
 	case *CloneUpdateInput:
+		if zzCloneOverride {
+			in.SnapName, in.RevisionCount = zzCloneSnap, zzCloneRev
+			return nil
+		}
 		in.SnapName, in.RevisionCount = zzPick("in.snap", "", "a", "new"), zzPick("in.rev", "", "5", "x")
 	case *RemoveDiskInput:
 		in.Name = zzName("in.name")
@@ -84,8 +89,24 @@ func zzRead(a *api.ApiContext, obj interface{}) error {
 	return nil
 }
 
-func zzWrite(a *api.ApiContext, obj interface{}) { zzWritten = append(zzWritten, obj) }
-func zzWriteErr(a *api.ApiContext, err error)    { zzErrors = append(zzErrors, err) }
+// the first thing written decides the status the client sees: a body written through
+// ApiContext.Write goes out with 200, WriteErr with the error's status, and neither can
+// be taken back by whatever is written afterwards.
+var zzFirst string // "", "ok", "err", "status"
+
+func zzWrite(a *api.ApiContext, obj interface{}) {
+	zzWritten = append(zzWritten, obj)
+	if zzFirst == "" {
+		zzFirst = "ok"
+	}
+}
+func zzWriteErr(a *api.ApiContext, err error) {
+	zzErrors = append(zzErrors, err)
+	if zzFirst == "" {
+		zzFirst = "err"
+	}
+}
+func zzNewSchema() *client.Schemas { return &client.Schemas{} }
 func zzVars(r *http.Request) map[string]string   { return map[string]string{"id": zzVarID} }
 func zzQuery(u *url.URL) url.Values              { return url.Values{"action": {zzAction}} }
 
@@ -94,6 +115,12 @@ func zzQuery(u *url.URL) url.Values              { return url.Values{"action": {
 // parameters of POST/PUT/PATCH requests over the URL query; PostFormValue sees only
 // the body.  The router dispatches on the URL query alone.
 var zzFormAction string
+
+// a harness-chosen updatecloneinfo body
+var (
+	zzCloneOverride      bool
+	zzCloneSnap, zzCloneRev string
+)
 
 func zzFormValue(r *http.Request, key string) string {
 	if key == "action" {
@@ -123,6 +150,13 @@ func (w *zzRW) Header() http.Header {
 	return w.hdr
 }
 func (w *zzRW) Write(b []byte) (int, error) { return len(b), nil }
-func (w *zzRW) WriteHeader(code int)        { w.status = code }
+func (w *zzRW) WriteHeader(code int) {
+	w.status = code
+	if zzFirst == "" {
+		zzFirst = "status"
+	}
+}
 
 func zzRequest() *http.Request { return &http.Request{URL: &url.URL{}, RequestURI: "/v1/replicas/1"} }
+
+func zzAsRouter(r interface{}) *mux.Router { return r.(*mux.Router) }
